@@ -20,6 +20,16 @@ enum HOp {
     KillB,
 }
 
+/// What is on disk before the first open: nothing, or the leftover of an interrupted creation.
+#[derive(Clone, Copy, Debug, PartialEq, Eq)]
+enum Init {
+    Fresh,
+    EmptyNdb,
+    ShortNdb,
+    ZeroPageNdb,
+    EmptyNdbAndWal,
+}
+
 fn hops(cross: bool) -> Vec<HOp> {
     let mut v = Vec::new();
     for h in 0..2u8 {
@@ -128,10 +138,20 @@ fn spawn_remote(base: &Path) -> Result<Option<Handle>, String> {
 }
 
 /// Runs one sequence; returns (violation, label).
-fn run_seq(seq: &[HOp], cross: bool) -> (Option<(String, String)>, String) {
+fn run_seq(seq: &[HOp], cross: bool, init: Init) -> (Option<(String, String)>, String) {
     let dir = scratch_dir("c10");
     let _g = ScratchGuard(dir.clone());
     let base = dir.join("g");
+    match init {
+        Init::Fresh => {}
+        Init::EmptyNdb => std::fs::write(dir.join("g.ndb"), b"").expect("leftover"),
+        Init::ShortNdb => std::fs::write(dir.join("g.ndb"), vec![0x4eu8; 100]).expect("leftover"),
+        Init::ZeroPageNdb => std::fs::write(dir.join("g.ndb"), vec![0u8; 8192]).expect("leftover"),
+        Init::EmptyNdbAndWal => {
+            std::fs::write(dir.join("g.ndb"), b"").expect("leftover");
+            std::fs::write(dir.join("g.wal"), b"").expect("leftover");
+        }
+    }
     let mut handles: [Option<Handle>; 2] = [None, None];
     let mut accepted: BTreeSet<u64> = BTreeSet::new();
     let mut refused = 0;
@@ -261,7 +281,7 @@ fn run_seq(seq: &[HOp], cross: bool) -> (Option<(String, String)>, String) {
 
 pub fn c10(tier: Tier) -> i32 {
     let rep = Report::new("C10", tier);
-    rep.rule("all sequences up to the stated length over {open, commit, compact, close, drop} x {handle A, handle B} (operations on a handle that is not open are skipped), in two configurations: both handles in this process, and handle B in a separate process driven over a pipe (plus kill -9 of that process); oracle: a second open while the other handle is open is refused, an open with no handle open succeeds (also after the other process was killed), every accepted commit and nothing else is present at the end; non-trivial = sequences in which a second open was attempted while a handle was open");
+    rep.rule("all sequences up to the stated length over {open, commit, compact, close, drop} x {handle A, handle B} (operations on a handle that is not open are skipped), in two configurations: both handles in this process, and handle B in a separate process driven over a pipe (plus kill -9 of that process); oracle: a second open while the other handle is open is refused, an open with no handle open succeeds (also after the other process was killed), every accepted commit and nothing else is present at the end; the in-process sequences are also started from four leftovers of an interrupted creation (0-byte, 100-byte, one zero page .ndb, empty .ndb + .wal); plus a concurrent configuration under the controlled scheduler (owner thread committing twice || a second Db::open, every I/O step a scheduling point, all schedules up to the preemption bound): the open is refused and a copy of the files taken afterwards (the owner killed without close) recovers every acknowledged commit; non-trivial = sequences in which a second open was attempted while a handle was open");
     let mut total_reports = Vec::new();
     for cross in [false, true] {
         let ops = hops(cross);
@@ -313,18 +333,44 @@ pub fn c10(tier: Tier) -> i32 {
         let results: Vec<(Vec<HOp>, Option<(String, String)>, String)> = if cross {
             all.iter()
                 .map(|s| {
-                    let (v, l) = run_seq(s, cross);
+                    let (v, l) = run_seq(s, cross, Init::Fresh);
                     (s.clone(), v, l)
                 })
                 .collect()
         } else {
             all.par_iter()
                 .map(|s| {
-                    let (v, l) = run_seq(s, cross);
+                    let (v, l) = run_seq(s, cross, Init::Fresh);
                     (s.clone(), v, l)
                 })
                 .collect()
         };
+        // the in-process sequences (one level shallower) also start from leftovers of an interrupted creation
+        if !cross {
+            let shallow: Vec<&Vec<HOp>> = all.iter().filter(|s| s.len() < depth).collect();
+            let mut n_left = 0u64;
+            for init in [Init::EmptyNdb, Init::ShortNdb, Init::ZeroPageNdb, Init::EmptyNdbAndWal] {
+                let rs: Vec<(Vec<HOp>, Option<(String, String)>)> = shallow.par_iter().map(|s| ((*s).clone(), run_seq(s, false, init).0)).collect();
+                for (s, v) in rs {
+                    n_left += 1;
+                    rep.add_states(1);
+                    rep.add_traces(1);
+                    rep.add_transitions(s.len() as u64);
+                    if s.iter().filter(|o| matches!(o, HOp::Open(_))).count() >= 2 {
+                        rep.add_nontrivial(1);
+                    }
+                    if let Some((class, detail)) = v {
+                        rep.outcome(&class);
+                        let mut kinds_v: Vec<String> = vec!["in-process".to_string(), format!("init:{init:?}")];
+                        kinds_v.extend(s.iter().map(|o| format!("{o:?}")));
+                        rep.violation(Violation { class, kinds: kinds_v, replay: json!({"engine":"handles","init": format!("{init:?}"), "sequence": s.iter().map(|o| format!("{o:?}")).collect::<Vec<_>>()}), detail });
+                    } else {
+                        rep.outcome(&format!("local:{init:?}:exclusive"));
+                    }
+                }
+            }
+            total_reports.push(json!({"leftover_initial_states": 4, "sequences": n_left}));
+        }
         eprintln!("config cross={cross}: {} sequences in {:.1}s", all.len(), t0.elapsed().as_secs_f64());
         let mut n = 0u64;
         for (s, v, l) in results {
@@ -366,6 +412,100 @@ pub fn c10(tier: Tier) -> i32 {
             }
         }
         total_reports.push(json!({"cross_process": cross, "depth": depth, "sequences": n}));
+    }
+    // (c) a refused open must have no effect even when it arrives in the middle of the owner's commit:
+    // owner thread commits two transactions, a second thread attempts Db::open; every schedule with at most
+    // the stated number of preemptions, every I/O step of the commit being a scheduling point
+    {
+        use crate::sched::{self, Body, Exec};
+        use std::sync::{Arc, Mutex};
+        let bound = tier.pick(1, 2);
+        let stats = sched::explore(bound, true, tier.pick(20_000, 400_000), || {
+            let dir = scratch_dir("c10s");
+            let base = dir.join("g");
+            let db = Arc::new(Db::open(&base).expect("open"));
+            commit_node(&db, 10).expect("first commit");
+            let acked: Arc<Mutex<Vec<u64>>> = Arc::new(Mutex::new(vec![10]));
+            let second: Arc<Mutex<Option<bool>>> = Arc::new(Mutex::new(None));
+            let mut bodies: Vec<Body> = Vec::new();
+            {
+                let (db, acked) = (db.clone(), acked.clone());
+                bodies.push(Box::new(move || {
+                    for ext in [11u64, 12] {
+                        if commit_node(&db, ext).is_ok() {
+                            acked.lock().unwrap().push(ext);
+                        }
+                    }
+                }));
+            }
+            {
+                let (base, second) = (base.clone(), second.clone());
+                bodies.push(Box::new(move || {
+                    let r = Db::open(&base);
+                    *second.lock().unwrap() = Some(r.is_ok());
+                    drop(r);
+                }));
+            }
+            let rep = &rep;
+            let check = move |x: &Exec| {
+                let _g = ScratchGuard(dir.clone());
+                // the owner handle stays open until the verdict (it must outlive the second thread's attempt)
+                let _owner = db;
+                rep.add_states(1);
+                rep.add_traces(1);
+                rep.add_transitions(x.points.len() as u64);
+                rep.add_nontrivial(1);
+                let kinds_v: Vec<String> = std::iter::once("concurrent_open".to_string()).chain(x.points.iter().filter(|p| p.chosen_idx != 0 && p.running_enabled).map(|p| format!("preempt@{}", p.site))).collect();
+                let replay = json!({"engine":"sched","harness":"owner commits x2 || second Db::open","schedule": x.choices});
+                if x.diverged || x.horizon_hit {
+                    rep.bump("machinery_diverged", 1);
+                    return;
+                }
+                if let Some(d) = &x.deadlock {
+                    rep.violation(Violation { class: "deadlock".into(), kinds: kinds_v, replay, detail: d.clone() });
+                    return;
+                }
+                if let Some(Err(e)) = x.thread_results.iter().find(|r| r.is_err()) {
+                    rep.violation(Violation { class: "thread_panicked".into(), kinds: kinds_v, replay, detail: e.clone() });
+                    return;
+                }
+                if *second.lock().unwrap() == Some(true) {
+                    rep.outcome("second_handle_opened");
+                    rep.violation(Violation { class: "second_handle_opened".into(), kinds: kinds_v, replay, detail: "Db::open succeeded while the owner handle is open and committing".into() });
+                    return;
+                }
+                // the owner process dies without close (a graceful drop would rewrite the log from memory):
+                // recover a copy of the files as they are now; everything acknowledged must be there
+                let want: BTreeSet<u64> = acked.lock().unwrap().iter().copied().collect();
+                let img = dir.join("image");
+                let _ = std::fs::create_dir_all(&img);
+                for f in ["g.ndb", "g.wal"] {
+                    let _ = std::fs::copy(dir.join(f), img.join(f));
+                }
+                let base = img.join("g");
+                match catch(|| Db::open(&base)) {
+                    Ok(Ok(d2)) => {
+                        let snap = d2.snapshot();
+                        // a node counts only with its property (the node table is written outside the log)
+                        let got: BTreeSet<u64> = snap.nodes().filter_map(|i| snap.resolve_external(i).filter(|e| snap.node_property(i, "k") == Some(nervusdb::PropertyValue::Int(*e as i64)))).collect();
+                        let bare: Vec<u64> = snap.nodes().filter_map(|i| snap.resolve_external(i)).filter(|e| !got.contains(e)).collect();
+                        if got != want || !bare.is_empty() {
+                            rep.outcome("refused_open_damaged_database");
+                            rep.violation(Violation { class: "refused_open_damaged_database:acknowledged_commit_lost".into(), kinds: kinds_v, replay, detail: format!("complete nodes after reopen {got:?} (nodes without their property: {bare:?}), acknowledged {want:?}") });
+                        } else {
+                            rep.outcome("concurrent:refused_without_effect");
+                        }
+                    }
+                    Ok(Err(e)) => rep.violation(Violation { class: "refused_open_damaged_database:reopen_fails".into(), kinds: kinds_v, replay, detail: e.to_string() }),
+                    Err(p) => rep.violation(Violation { class: "refused_open_damaged_database:reopen_panics".into(), kinds: kinds_v, replay, detail: p }),
+                }
+            };
+            (bodies, check)
+        });
+        if stats.capped {
+            rep.not_exhaustive("schedule cap hit in the concurrent configuration");
+        }
+        total_reports.push(json!({"concurrent_refused_open": {"preemption_bound": bound, "schedules": stats.schedules, "scheduling_points": stats.points, "max_points_per_schedule": stats.max_points}}));
     }
     rep.sample(json!(["Open(0)", "Open(1) -> refused", "Commit(0)", "Close(0)", "Open(1)"]));
     rep.set("configurations", json!(total_reports));
